@@ -44,6 +44,12 @@ def popLast {α} : List α → Except Err (α × List α)
 /-- `s.add(x)` on a Python set kept as a list without repetitions -/
 def setAdd (s : List Nat) (x : Nat) : List Nat := if x ∈ s then s else s ++ [x]
 
+/-- `{x for … }`: the set of the elements of a list -/
+def setOfList (l : List Nat) : List Nat := l.foldl setAdd []
+
+/-- `a - b` on two Python sets -/
+def setDiff (a b : List Nat) : List Nat := a.filter (fun x => !decide (x ∈ b))
+
 /-- `mask_specified(m)` with masks as `None` / `Mask.FLEX` = -1 / `Mask.NONE` = -2 / an explicit mask `k ≥ 0`: true unless the
     mask is one of the two enum members -/
 def maskSpecified : Option Int → Bool
